@@ -373,7 +373,7 @@ def assert_storage(L, E, I, o, r):
                 L.concrete(ok, f'slot {i} holds neither its previous content nor a header from this buffer')
 
 
-def add_validation(rec, E, I, o, params, api=None, variant=None):
+def add_validation(rec, E, I, o, params, api=None, variant=None, cap=None):
     """every k-th leaf (by a hash of its decision vector) is replayed natively by the runner: the engine's predicted
     observation must equal the real parser's"""
     k = params.get('validate_every', 25)
@@ -385,7 +385,7 @@ def add_validation(rec, E, I, o, params, api=None, variant=None):
     bits, data = concrete_input(I, wit)
     sc = I.sc
     rec.setdefault('extra', {}).setdefault('validate', []).append(
-        {'variant': variant or sc.variant, 'kind': sc.kind, 'api': api or sc.api, 'flags': bits, 'cap': sc.cap, 'buf': data.hex(),
+        {'variant': variant or sc.variant, 'kind': sc.kind, 'api': api or sc.api, 'flags': bits, 'cap': sc.cap if cap is None else cap, 'buf': data.hex(),
          'pred': predicted_json(E, I, o)(wit)})
 
 
